@@ -10,8 +10,10 @@ import DisjointImpls.Bounds
 import DisjointImpls.Validate
 import DisjointImpls.Canon
 import DisjointImpls.Group
+import DisjointImpls.Expand
 import DisjointImpls.Lemmas.MatchSound
 import DisjointImpls.Lemmas.RevSubLemmas
+import DisjointImpls.Lemmas.GroupLemmas
 open DI
 
 def rToSx : R → Sx
@@ -36,8 +38,38 @@ def handleValidate (args : List Sx) : Sx :=
       | .error d => .list [.sym "error", .str d.message]
   | _ => .list [.sym "bad-args"]
 
+def optSx (o : Option T) : Sx := match o with | some t => .list [.sym "some", t.toSx] | none => .list [.sym "none"]
+
+def handleExpand (args : List Sx) : Sx :=
+  match args with
+  | tr :: items =>
+      let trait_ := T.ofSx tr
+      match parseGroups (items.filterMap T.ofSx) with
+      | .ok groups =>
+          .list [.sym "ok", .list ((List.zip (List.range groups.length) groups).map (fun ig =>
+            let idx := ig.1
+            let g := ig.2
+            let nkeys := g.2.1.idents.length
+            let ht := match trait_ with
+              | some t => helperTraitOfTrait t idx nkeys
+              | none => none
+            let mi : Sx := match trait_ with
+              | some t => (match mainImplOfTrait t idx g with
+                  | .ok m => .list [.sym "ok", m.toSx]
+                  | .panic => .list [.sym "panic"]
+                  | .unmodelled => .list [.sym "unmodelled"])
+              | none => .list [.sym "unmodelled"]
+            .list [optSx ht,
+              (match helperImpls idx g with
+               | some hs => .list (hs.map T.toSx)
+               | none => .list [.sym "panic"]), mi]))]
+      | .unableToForm _ => .list [.sym "unable"]
+      | .panic _ => .list [.sym "panic"]
+  | _ => .list [.sym "bad-args"]
+
 def handle (cmd : String) (args : List Sx) : Sx :=
   if cmd == "validate" then handleValidate args else
+  if cmd == "expand" then handleExpand args else
   match cmd, args.filterMap T.ofSx with
   | "sup", [a, b] => rToSx (sup a b)
   | "supchk", [a, b] =>
@@ -86,7 +118,9 @@ def handle (cmd : String) (args : List Sx) : Sx :=
       | .ok groups => .list [.sym "ok", .list (groups.map (fun e =>
           .list [e.1.toSx, .list (e.2.2.map (fun b => b.item.toSx)), abgSx e.2.1,
             .list (e.2.1.idents.map (fun kx => .list [kx.1.1.toSx, kx.1.2.toSx, .str kx.2])),
-            .list (e.2.1.payloads.map (fun row => .list (row.map (fun o => match o with | some p => .list [.sym "some", p.toSx] | none => .list [.sym "none"]))))]))]
+            .list (e.2.1.payloads.map (fun row => .list (row.map (fun o => match o with | some p => .list [.sym "some", p.toSx] | none => .list [.sym "none"]))))])),
+          -- hypothesis of C11_partition_acyclic evaluated on this input, and the conclusion of C11_partition_of_trace
+          boolSx (acyclicB items), boolSx (traceCovers items)]
       | .unableToForm id => .list [.sym "unable", id.toSx]
       | .panic e => .list [.sym "panic", .str (match e with | .unwrapNone => "unwrap-none" | .fuel => "fuel")]
   | "rows", [rows] =>
